@@ -264,6 +264,7 @@ pub fn zoom_opts(quick: bool) -> Vec<Opts> {
                         rt: Rt::Current,
                         chan: 100,
                         two_pass,
+                        src: [SrcKind::Iter, SrcKind::ParallelFile, SrcKind::SerialText][n % 3],
                     });
                 }
             }
